@@ -68,4 +68,8 @@ def make_route(spec, **kw):
         rkw['methods'] = list(spec['methods'])
     if spec.get('mode'):
         rkw['slash_mode'] = spec['mode']
+    if spec.get('route_res'):
+        # resources of the route itself; 'res_shared' is a name that applications define too (no conflict: the serving
+        # application's value wins)
+        rkw['resources'] = {'res_shared': object(), 'rr_' + spec['rid']: object()}
     return Route(spec['pattern'], ep, **rkw)
